@@ -47,6 +47,10 @@ def tlc_cmd(module, cfg, workers=1, extra=(), metadir=None, heap="3g", deque=Fal
     jopts = ["-XX:+UseParallelGC", "-XX:ParallelGCThreads=2", "-XX:CICompilerCount=2", "-Xss64m", "-Xmx" + heap, "-Dfile.encoding=UTF-8", "-Dstdout.encoding=UTF-8"]
     if deque:
         jopts.append("-Dtlc2.tool.queue.IStateQueue=StateDeque")
+    if metadir:
+        # TLC unpacks its standard modules into java.io.tmpdir/tlc-<n> and leaves them there: keep them inside the
+        # per-run scratch directory, which run_tlc removes
+        jopts.append("-Djava.io.tmpdir=" + os.path.dirname(metadir))
     return (["java"] + jopts + ["-cp", TLC_CP, "tlc2.TLC", "-workers", str(workers), "-noGenerateSpecTE",
             "-metadir", metadir, "-config", cfg] + list(extra) + [module])
 
